@@ -33,11 +33,11 @@ def config(draw, kmax=4):
     k = draw(st.integers(1, kmax)) if kmax > 4 else draw(st.sampled_from([1, 2, 3, 4, 1, 2, 3, 4, 2, 3, 4, 5, 7, 8]))
     h = {}
     if G.chance(draw, 50):
-        h["nc_var_align_size"] = str(draw(st.sampled_from([1, 4, 8, 64, 512, 4096])))
+        h["nc_var_align_size"] = str(draw(st.sampled_from([1, 4, 6, 8, 64, 197, 512, 4096])))
     if G.chance(draw, 30):
-        h["nc_header_align_size"] = str(draw(st.sampled_from([4, 64, 1024])))
+        h["nc_header_align_size"] = str(draw(st.sampled_from([4, 7, 64, 1024])))
     if G.chance(draw, 40):
-        h["nc_record_align_size"] = str(draw(st.sampled_from([4, 8, 512])))
+        h["nc_record_align_size"] = str(draw(st.sampled_from([4, 8, 10, 50, 512])))
     if G.chance(draw, 50):
         h["nc_ibuf_size"] = str(draw(st.sampled_from([1, 64, 100000])))
     if G.chance(draw, 60):
